@@ -15,7 +15,14 @@ class NotImplementedOperatorDispatcher:
     def _not_impl(self, *_):
         return NotImplemented
 
-    add = sub = mul = truediv = floordiv = neg = and_ = or_ = xor = not_ = _not_impl
+    def _not_impl_unary(self, *_):
+        # Python does not turn a returned ``NotImplemented`` into a TypeError for unary operators.
+        raise TypeError(
+            "bad operand type for unary operator: 'Var' (operator overloading is not enabled)"
+        )
+
+    add = sub = mul = truediv = floordiv = and_ = or_ = xor = _not_impl
+    neg = not_ = _not_impl_unary
 
 
 class Var:
